@@ -177,9 +177,13 @@ type Expect struct {
 	Ns       []RR // authority section (owner = zone)
 	// glue expectation: target -> family -> candidates (exactly one must be present if any positive weight)
 	Glue        map[string]map[uint16][]RR
-	GlueLenient map[string]bool // targets for which extra records are optional (HTTPS owner)
-	Wildcard    bool
-	Undefined   string // non-empty: the reference has no opinion (reason)
+	GlueLenient map[string]bool // targets for which extra records are optional
+	// GlueLenientFam: per target and family, set when the answer itself already
+	// holds addresses of that name and family (then repeating them as glue
+	// depends on how the name was spelled)
+	GlueLenientFam map[string]map[uint16]bool
+	Wildcard       bool
+	Undefined      string // non-empty: the reference has no opinion (reason)
 }
 
 func wildSafe(label string) bool {
@@ -423,14 +427,19 @@ func (w *World) Resolve(q Query, loc [2]byte) *Expect {
 				ix.glueFor(e, nameFromWire(r.RData[2:]), loc, false)
 			}
 		case 65:
-			ix.glueFor(e, strings.TrimSuffix(q.Name, "."), loc, true)
+			ix.glueFor(e, lowerASCII(strings.TrimSuffix(q.Name, ".")), loc, false)
 		}
 	}
 	// a target equal to the queried name: whether its addresses are repeated
 	// in the additional section depends on whether the answer already holds
 	// them (compared by spelling) - either is acceptable.
 	if _, ok := e.Glue[qn]; ok {
-		e.GlueLenient[qn] = true
+		e.GlueLenientFam = map[string]map[uint16]bool{qn: {}}
+		for fam, n := range e.AddrN {
+			if n > 0 {
+				e.GlueLenientFam[qn][fam] = true
+			}
+		}
 	}
 	if zone != qn && zone != "" && strings.HasSuffix(qn, "."+zone) {
 		// nested-zone marker for the histogram: the zone apex is itself below another zone
